@@ -88,6 +88,8 @@ def run(chk, replay=None):
             if not any(v["i"] == k + 1 and "header-layout" in v["p"] for v in rb.emitted):
                 raise vlib.Infra("binding demonstration failed: corrupted header byte not judged")
             chk.part("vacuity_guards", AccumulateOnMarshal_refuted=True, corrupted_event_rejected=True)
+        # ---- specification growth (drift only): the SMB1 client as a protocol machine over a scripted transport
+        vlib.replay_cases(chk, "SMBClient", vlib.cfg("G01_smbclient.cfg"), "g01.smbclient", "growth_smbclient")
         chk.assumptions += [
             "command bodies are opaque (their field layouts belong to C04/C05): Encode(fields) is the first Marshal of a FRESH "
             "message holding the same field values; the specification fixes the header bytes, the framing and the dispatch",
